@@ -266,7 +266,7 @@ func (w *world) origin(rw http.ResponseWriter, r *http.Request) {
 		if la, ok := r.Context().Value(http.LocalAddrContextKey).(*net.TCPAddr); ok {
 			ip = normIP(la.IP)
 		}
-		w.res.Contacts = append(w.res.Contacts, ssrfContact{Flow: w.flow, IP: ip, Path: r.URL.Path})
+		w.res.Contacts = append(w.res.Contacts, ssrfContact{Flow: w.flow, IP: ip, Path: r.URL.Path + "?" + r.URL.RawQuery})
 	}
 	w.mu.Unlock()
 	w.reply(rw, r.URL.Path, cur)
